@@ -1,6 +1,7 @@
 package checks
 
 import (
+	"bytes"
 	"fmt"
 	"math/big"
 	"math/rand"
@@ -17,7 +18,7 @@ func init() {
 	register(&Check{
 		ID:    "C14",
 		Title: "Transcript challenges follow the specified hash chain and bind all messages",
-		Rule: "seeded random sequences of DomainSep/AppendMessage/AppendScalar/AppendPoint/ChallengeScalar (length 0..64, thorough up to 512; labels and messages of length 0..200, single messages up to 100 kB; pending buffers far beyond 1024 bytes; scalars 0, r-1, edge, random; points in six representations incl. the other class member; consecutive challenges), " +
+		Rule: "seeded random sequences of DomainSep/AppendMessage/AppendScalar/AppendPoint/ChallengeScalar (length 0..64, thorough up to 512; labels and messages of length 0..200, single messages up to 100 kB, occasionally protocol labels/labels/messages of about 55/64/1024/4096/65536 bytes; pending buffers far beyond 1024 bytes; scalars 0, r-1, edge, random; points in six representations incl. the other class member; consecutive challenges), " +
 			"each executed twice on the library and once on the reference transcript, plus single-edit perturbations (one byte of a label/message/protocol label flipped, two adjacent operations swapped, an operation dropped or duplicated); " +
 			"a class is (sequence length class, max pending bytes class, operation kinds used, perturbation kind); non-trivial = at least one append before a challenge",
 		Technique:        "reference-model monitor: independent byte-accumulator + SHA-256 transcript run in lock step with the real one; every challenge compared",
@@ -50,6 +51,12 @@ func c14bytes(rng *rand.Rand, max int) []byte {
 		n = 1
 	case 2:
 		n = rng.Intn(max + 1)
+	case 3:
+		n = rng.Intn(24)
+		if rng.Intn(24) == 0 {
+			// around the hash block size and around buffer-size powers of two, whatever the nominal maximum
+			n = []int{55, 64, 1024, 4096, 65536}[rng.Intn(5)] + rng.Intn(3) - 1
+		}
 	default:
 		n = rng.Intn(24)
 	}
@@ -361,6 +368,9 @@ func runC14(c *mon.Ctx) {
 					maxMsg = c.Pick(5000, 100000)
 				}
 				proto := string(c14bytes(rng, 30))
+				if j%16 == 5 {
+					proto = string(append(bytes.Repeat([]byte{byte(j)}, []int{1023, 1024, 1025, 4097, 70000}[(j/16)%5]), c14bytes(rng, 3)...))
+				}
 				if j%4 == 0 {
 					proto = []string{"", "test", "simple_protocol", "vt"}[rng.Intn(4)]
 				}
